@@ -354,6 +354,7 @@ def dispatch (op : String) (j : Json) : Json :=
   | "c15.printer" => Ops.c15printer j
   | "c06.value" => Ops.c06value j
   | "c01.compile" => Core.Codec.compileOp j
+  | "c04.compile" => Core.Codec.compilePrefsOp j
   | "c08.origin" => Ops.C08.origin j
   | "c08.link" => Ops.C08.link j
   | _ => Json.mkObj [("err", "bad-op")]
